@@ -4,7 +4,7 @@ from sim import resume
 PROP = 'C17'
 LEVEL = 'fault_enumeration'
 TIERS = {
-    'quick': {'runs': 1200, 'layer_a': 186, 'wall_per_run': 300},
+    'quick': {'runs': 2400, 'layer_a': 372, 'wall_per_run': 300},
     'thorough': {'runs': 40000, 'layer_a': 6200, 'wall_per_run': 300, 'selftest': 400},
 }
 REQUIRED_PROBES = ['resume_skipped_and_processed', 'crash_inside_batch', 'crash_before_first_write',
